@@ -337,6 +337,70 @@ def h1_paths(K=2, first=0, paint=None, timeout=200, part=None, axis_ctm=False, n
                          timeout, concretize=conc, shims={"namespace_shims": shims}, part=part)
 
 
+def _emit_state(ex, prog, tag, o, n, axis_ctm=True):
+    r = lambda nm: ex.real(nm, -R, R)
+    rc = lambda nm: ex.real(nm, -10, 10)
+    if o == "d":
+        prog.append(("S", o, [[1 + len(tag), 2], len(tag) - 1]))            # distinct patterns for distinct positions in the program
+    elif o == "cm":
+        a = [rc("%s_%d" % (tag, i)) for i in range(6)] if not axis_ctm else [rc("%s_0" % tag), 0, 0, rc("%s_3" % tag), rc("%s_4" % tag), rc("%s_5" % tag)]
+        prog.append(("S", o, a))
+    elif ";" in o:
+        o1, o2 = o.split(";")
+        if ":" in o1:
+            prog.append(("S", o1.split(":")[0], [o1.split(":")[1]]))
+        else:
+            prog.append(("S", o1, [r("%s_%d" % (tag, i)) for i in range(n)]))
+        prog.append(("S", o2, [r("%st_%d" % (tag, i)) for i in range(n)]))
+    else:
+        prog.append(("S", o, [r("%s_%d" % (tag, i)) for i in range(n)]))
+
+
+def h3_saverestore(timeout=200, part=None, **kw):
+    """X ; q ; Y ; m l S ; Q ; m l S  for every pair of state operators X, Y (symbolic choice, symbolic operands): the shape painted inside q..Q has the state after X and Y,
+    the shape painted after Q has exactly the state after X (every component of the graphics state is saved and restored: CTM, line width, dash, colours, colour spaces)"""
+    shims = C05._shims()
+    import pdfminer.pdfinterp as pi
+
+    def fn(ex):
+        it, dev = _setup()
+        md = Model()
+        r = lambda n: ex.real(n, -R, R)
+        prog = []
+        x, nx = STATE_OPS[ex.choice(len(STATE_OPS), "X")]
+        y, ny = STATE_OPS[ex.choice(len(STATE_OPS), "Y")]
+        _emit_state(ex, prog, "x", x, nx)
+        prog.append(("S", "q", []))
+        _emit_state(ex, prog, "yy", y, ny)
+        prog += [("C", "m", [r("a0"), r("a1")]), ("C", "l", [r("a2"), r("a3")]), ("P", "S", []), ("S", "Q", [])]
+        prog += [("C", "m", [r("z0"), r("z1")]), ("C", "l", [r("z2"), r("z3")]), ("P", "S", [])]
+        info = {"prog": [(k, o) for k, o, _ in prog], "args": [[v if isinstance(v, (str, list, int)) and not isinstance(v, (SV, SI)) else ("sym", str(v.e)) for v in a] for _, _, a in prog]}
+        for kind, o, a in prog:
+            try:
+                if kind == "S":
+                    real_state(it, o, a)
+                    md.state_op(o, a)
+                elif kind == "C":
+                    real_cons(it, o, a + [0] * 6)
+                    md.cons(o, a + [0] * 6)
+                else:
+                    real_paint(it, o)
+                    md.paint(o)
+            except symx.Violation:
+                raise
+            except Exception as e:
+                ex.require(False, "operator %s raised %s: %s" % (o, type(e).__name__, e), **info)
+        check_shapes(ex, shapes_of(dev.cur_item), md.shapes, info)
+
+    def conc(m, info):
+        return {"prog": info["prog"], "args": info["args"], "vals": {str(d): symx.mval(m, m[d]) for d in m.decls()}}
+    P = pi.PDFPageInterpreter
+    return core.run_symx("H3_saverestore", fn, [P.do_q, P.do_Q, pi.PDFGraphicState.copy, P.get_current_state, P.set_current_state, P.do_w, P.do_d, P.do_cm, P.do_g, P.do_G, P.do_rg, P.do_RG, P.do_k, P.do_K,
+                                                P.do_cs, P.do_CS, P.do_sc, P.do_scn, P.do_SC, P.do_SCN],
+                         {"program": "X ; q ; Y ; m l S ; Q ; m l S with X, Y from %s" % [o for o, _ in STATE_OPS], "operands": "symbolic reals (cm axis-aligned)"},
+                         timeout, concretize=conc, shims={"namespace_shims": shims}, part=part)
+
+
 def h2_quads(timeout=200, part=None, **kw):
     """five-point subpaths (m l l l h / m l l l l / re) with ALL coordinates symbolic: the line / rectangle / curve classification"""
     shims = C05._shims()
@@ -442,6 +506,7 @@ def replay(harness, inp):
 
 def jobs(tier):
     J = [Job("H2_quads:%d" % k, "h2_quads", {"part": [k, 3, 6]}, 300, "H2_quads") for k in range(3)]
+    J += [Job("H3_saverestore:%d" % k, "h3_saverestore", {"part": [k, 4, 8]}, 300, "H3_saverestore") for k in range(4)]
     if tier == "quick":
         for k in range(10):
             J.append(Job("H1_paths:K2:m:axis:%d" % k, "h1_paths", {"K": 2, "first": 0, "axis_ctm": True, "part": [k, 10, 11]}, 300, "H1_paths"))
